@@ -42,6 +42,7 @@ op_st = st.one_of(
 case_st = st.fixed_dictionaries({
     'mode': st.sampled_from(['txt', 'json', 'binl', 'bin']),
     'pad': st.sampled_from(['x', 'x', 'ctl']),
+    'bin_buf': st.sampled_from(['bytes', 'bytes', 'bytearray', 'array_d', 'array_H', 'memoryview_array']),     # mode 'bin' takes anything with a buffer interface
     't0': st.sampled_from([1_760_000_000.0, 1_760_000_000.0, 1_096_913_331.0]),    # in 2004 a quarter of all microsecond values do not survive int(us / 1e6 * 1e6)
     'file_size': st.one_of(st.integers(1, 200), st.sampled_from([1, 10, 64, 100])),
     'total_size': st.one_of(st.integers(1, 1500), st.sampled_from([50, 300, 10**9, 10**9])),
